@@ -5,6 +5,50 @@ simulation built in the final configuration at every observing action."""
 from harness import lifecycle as lc
 
 
+def beam_mesh_replacement(ctx):
+    """Beam simulations keep a converted copy of every mesh: replacement is replayed outside the generated behaviours.
+    simu.mesh = B, constraints re-entered, Solve(): K, F, solution and results equal those of a simulation built on B."""
+    import numpy as np
+
+    for timo in (False, True):
+        ad = lc.BeamAdapter(timo=timo)
+        w = lc.World(ad)
+        sim = w.sims["s1"]
+        tag = f"Beam{'-Timoshenko' if timo else ''}"
+        try:
+            with lc.quiet():
+                sim.Solve()
+                sim.Save_Iter()
+                sim.mesh = ad.base_mesh("B")
+            w.apply_bc_op(sim, ("set", 0))
+            with lc.quiet():
+                fresh = ad.make_sim(ad.base_mesh("B"), ad.make_model(0))
+            w.apply_bc_op(fresh, ("set", 0))
+            for nm, g, e in zip("KCMF", ad.kcmf(sim), ad.kcmf(fresh)):
+                if lc.relerr(g, e) > lc.TOL:
+                    ctx.violation(f"{tag}/stale/{nm}/SetMesh", f"{tag}: {nm} after simu.mesh = B differs from a simulation built on B (rel err {lc.relerr(g, e):.3g})", {"adapter": tag})
+            with lc.quiet():
+                sim.Solve()
+                fresh.Solve()
+            if lc.relerr(sim.displacement, fresh.displacement) > 1e-7:
+                ctx.violation(f"{tag}/stale/solution-u/SetMesh", f"{tag}: solution after simu.mesh = B differs from a simulation built on B", {"adapter": tag})
+            with lc.quiet():
+                sim.Save_Iter()
+                sim.Set_Iter(0)
+            if sim.mesh.Nn != w.meshes["A"].Nn:
+                ctx.violation(f"{tag}/store/restore-mesh/SetIter", f"{tag}: Set_Iter(0) after a mesh replacement does not bring back the first mesh", {"adapter": tag})
+            with lc.quiet():
+                sim.Set_Iter(1)
+                sim.Solve()
+            if lc.relerr(sim.displacement, fresh.displacement) > 1e-7:
+                ctx.violation(f"{tag}/stale/solution-u/SetIter", f"{tag}: solution after Set_Iter(0), Set_Iter(1) differs from a simulation built on B", {"adapter": tag})
+        except Exception as ex:
+            ctx.violation(f"{tag}/stale/solve-raises/SetMesh", f"{tag}: simu.mesh = B then Solve() raises {type(ex).__name__}: {ex}, while a simulation built on B solves", {"adapter": tag})
+        finally:
+            w.close()
+        ctx.count(6, distinct_key=("beam-mesh-replacement", timo))
+
+
 def run(ctx):
     if ctx.replay:
         import json
@@ -31,6 +75,10 @@ def run(ctx):
     for name in ["Elastic", "Thermal", "MatSimu"]:
         lc.simulate_and_replay(ctx, name, ["SetMesh", "SaveIter", "SetIter", "Solve", "GetKCMF", "Translate", "SetParam"], num // 2, 12, ctx.seed + 4, label="restore")
     lc.simulate_and_replay(ctx, "Elastic", ["SetParam", "SetRho", "Translate", "SetCoord", "SetMesh", "GetKCMF", "Solve", "SetBc"], num // 2, 10, ctx.seed + 3, sims=("s1", "s2"), label="shared")
+    for name in ["Beam", "Elastic3D"]:
+        lc.simulate_and_replay(ctx, name, lc.ALL_ACTS, num // 2, 14, ctx.seed + 5, label="all")
+        lc.simulate_and_replay(ctx, name, lc.CACHE_ACTS, num // 2, 12, ctx.seed + 6, label="cache")
+    beam_mesh_replacement(ctx)
     ctx.cov["rule"] = ("TLC simulation-mode behaviours of Lifecycle.tla (random walks over the enabled actions, seeded) replayed on real simulations; "
                        "distinct = distinct (simulation type, action, preceding action) triples executed")
     ctx.assume("fresh simulation = new mesh object built from the harness's own shadow coordinates + new model + re-applied BC program; comparison at 1e-9 (matrices) / 1e-7 (solutions)")
